@@ -22,7 +22,8 @@ from common import CACHE, REPO, Rng, VERIF, sh, tail
 
 LEVEL = "proof"
 REQUIRED = ["C05_are_equal_spec", "C05_root_spec", "C05_union_spec", "C05_root_idem", "C05_equate_spec",
-            "C05_new_el_spec", "C05_run_WF"]
+            "C05_new_el_spec", "C05_run_WF", "C05_are_equal_equiv", "C05_are_equal_iff_root",
+            "C05_root_el_class_unique", "C05_root_el_total"]
 
 CODES = {"Grow": 0, "Root": 1, "RootConst": 2, "Union": 3, "Len": 4, "NewEl": 5, "EquateOp": 6,
          "AddWeight": 7, "SubWeight": 8, "AreEqual": 9, "RootEl": 10}
